@@ -25,6 +25,9 @@ pub enum Op {
     Lookup(u16, u64, u8),
     Get(u16, u64, u8),
     Iter,
+    /// insert a Loaded entry that shares its zone object (the same `Arc`) with the Loaded entry inserted
+    /// last at this name and class, with fresh metadata: (name selector, case mask, class selector)
+    Reinsert(u16, u64, u8),
 }
 
 #[derive(Clone, Debug, Serialize, Deserialize, PartialEq, Eq, Hash)]
@@ -70,6 +73,7 @@ pub fn oracle(case: &Case, st: &mut Stats) -> Verdict {
     let mut model: MCatalog<Ident> = MCatalog::new();
     let mut remove_under_ancestor = false;
     let mut next_id = 0u32;
+    let mut zones: std::collections::HashMap<(MName, u16), Arc<HashMapTreeZone>> = std::collections::HashMap::new();
     macro_rules! g {
         ($i:expr, $what:expr, $body:expr) => {
             match catch(|| $body) {
@@ -86,6 +90,9 @@ pub fn oracle(case: &Case, st: &mut Stats) -> Verdict {
                 let class = CLASSES[*c as usize % 3];
                 next_id += 1;
                 let e = make_entry(&name, class, *kind, next_id);
+                if let Entry::Loaded(z, _) = &e {
+                    zones.insert((name.folded(), class), z.clone());
+                }
                 let id = ident(&e);
                 let prev = g!(i, "insert", cat.insert(e));
                 let mprev = model.insert(&name, class, id);
@@ -96,6 +103,27 @@ pub fn oracle(case: &Case, st: &mut Stats) -> Verdict {
                     prev.as_ref().map(ident),
                     mprev
                 );
+            }
+            Op::Reinsert(s, mask, c) => {
+                let name = flip_case(&case.names[pick(*s, case.names.len())], *mask);
+                let class = CLASSES[*c as usize % 3];
+                if let Some(z) = zones.get(&(name.folded(), class)).cloned() {
+                    next_id += 1;
+                    if matches!(model.get(&name, class), Some((0, ..))) {
+                        st.class("loaded-entry-replaced-by-one-sharing-its-zone-object");
+                    }
+                    let e: E = Entry::Loaded(z, next_id);
+                    let id = ident(&e);
+                    let prev = g!(i, "insert", cat.insert(e));
+                    let mprev = model.insert(&name, class, id);
+                    ensure!(
+                        prev.as_ref().map(ident) == mprev,
+                        "insert-return",
+                        "op #{i} insert({name}, class {class}, the zone object inserted there before, new metadata {next_id}) returned {:?}, reference {:?}",
+                        prev.as_ref().map(ident),
+                        mprev
+                    );
+                }
             }
             Op::Remove(s, mask, c) => {
                 let name = flip_case(&case.names[pick(*s, case.names.len())], *mask);
@@ -211,6 +239,7 @@ fn case_strategy() -> impl Strategy<Value = Case> {
         5 => (any::<u16>(), mask(), 0u8..3, 0u8..3).prop_map(|(s, m, c, k)| Op::Insert(s, m, c, k)),
         4 => (any::<u16>(), mask(), 0u8..3).prop_map(|(s, m, c)| Op::Remove(s, m, c)),
         1 => Just(Op::Iter),
+        2 => (any::<u16>(), mask(), 0u8..3).prop_map(|(s, m, c)| Op::Reinsert(s, m, c)),
     ];
     (names, prop::collection::vec(op, 0..50)).prop_map(|(names, ops)| Case { names, ops })
 }
